@@ -1,6 +1,13 @@
 (** Land phase of the Sacramento model (Kernels/Sacramento.v): store invariant and water budgets of the
     code as it is, under explicit guards that exclude the situations of the refutations in
-    KernelProofs/Sacramento.v (ratio outside [0,1]; fracp > 1). *)
+    KernelProofs/Sacramento.v:
+      - static guard  [lzfpm p <= lzfsm p]  (then fracp <= 1; dynamic form [inc_guard])
+      - static guard  [10 <= lztwm p]       (then 2*pinc <= lztwm, the ADIMP ratio stays <= 1)
+      - per-step guard [pre_guard p st pet] (the ADIMP ratio numerator is >= 0 after the free-to-tension
+        transfer, and pet <= uztwm + lztwm); sufficient: uztwc + uzfwc <= adimc ([pre_guard_suff]).
+    Main results: [sac_inc_inv] (one iteration), [sac_pass_inv], [sac_loop_inv], [sac_pre_inv],
+    [sac_land_inv] (invariant + pervious and ADIMP water budgets of the land phase), [sac_step_inv],
+    [sacramento_c10_guarded] (run level). *)
 From Coq Require Import Reals Lra Lia List Bool ZArith Psatz.
 From OW Require Import Base.Arith Base.RInst Base.Mealy Kernels.Sacramento KernelProofs.RRCommon KernelProofs.Sacramento.
 Import ListNotations.
@@ -467,4 +474,329 @@ Proof.
     destruct (sac_pass_inv p uz adj pav v Hok Hm Ht ltac:(lra) Hp I) as (I1 & B1 & B2).
     destruct (sac_pass_inv p uz (1 - adj) 0 _ Hok Hm Ht ltac:(lra) ltac:(lra) I1) as (I2 & C1 & C2).
     split; [exact I2 | split; lra].
+Qed.
+
+(** * (C2) the land phase before the loop: [sac_pre] *)
+Definition pre_evap (p : sac_par (T:=R)) (st : sac_st (T:=R)) (evapt : R) : R * R * R * R :=
+  let e1a := if Rltb 0 (uztwm p) then evapt * uztwc st / uztwm p else 0 in
+  if Rltb (uztwc st) e1a then
+    (uztwc st, Rmin (evapt - uztwc st) (uzfwc st), 0, uzfwc st - Rmin (evapt - uztwc st) (uzfwc st))
+  else (e1a, 0, uztwc st - e1a, uzfwc st).
+
+Definition pre_transfer (p : sac_par (T:=R)) (uztwc1 uzfwc1 : R) : R * R :=
+  let a1 := if Rltb 0 (uztwm p) then uztwc1 / uztwm p else 1 in
+  let b1 := if Rltb 0 (uzfwm p) then uzfwc1 / uzfwm p else 1 in
+  if Rltb a1 b1 then
+    (uztwm p * ((uztwc1 + uzfwc1) / (uztwm p + uzfwm p)), uzfwm p * ((uztwc1 + uzfwc1) / (uztwm p + uzfwm p)))
+  else (uztwc1, uzfwc1).
+
+Definition pre_e35 (p : sac_par (T:=R)) (st : sac_st (T:=R)) (evapt e1 e2 uztwc2 : R) : R * R :=
+  if Rltb 0 (uztwm p + lztwm p) then
+    (Rmin ((evapt - e1 - e2) * lztwc st / (uztwm p + lztwm p)) (lztwc st),
+     Rmin (e1 + (evapt - e1 - e2) * (adimc st - e1 - uztwc2) / (uztwm p + lztwm p)) (adimc st))
+  else (0, 0).
+
+Definition pre_resupply (p : sac_par (T:=R)) (st : sac_st (T:=R)) (lztwc1 : R) : R * R * R :=
+  let saved := rserv p * (lzfpm p + lzfsm p) in
+  let a2 := if Rltb 0 (lztwm p) then lztwc1 / lztwm p else 1 in
+  let b2 := if Rltb 0 (sMp p + sMs p - saved + lztwm p)
+            then (alzfpc st + alzfsc st - saved + lztwc1) / (sMp p + sMs p - saved + lztwm p)
+            else 1 in
+  if Rltb a2 b2 then
+    if Rltb (alzfsc st - (b2 - a2) * lztwm p) 0
+    then (lztwc1 + (b2 - a2) * lztwm p, 0, alzfpc st + (alzfsc st - (b2 - a2) * lztwm p))
+    else (lztwc1 + (b2 - a2) * lztwm p, alzfsc st - (b2 - a2) * lztwm p, alzfpc st)
+  else (lztwc1, alzfsc st, alzfpc st).
+
+Definition pre_fill (p : sac_par (T:=R)) (pliq adimc1 uztwc2 : R) : R * R * R :=
+  if Rltb (pliq + uztwc2 - uztwm p) 0 then (adimc1 + pliq, uztwc2 + pliq, 0)
+  else (adimc1 + uztwm p - uztwc2, uztwm p, pliq + uztwc2 - uztwm p).
+
+Lemma sac_pre_blocks p st pliq evapt :
+  sac_pre p st (pliq, evapt) =
+  let '(e1, e2, uztwc1, uzfwc1) := pre_evap p st evapt in
+  let '(uztwc2, uzfwc2) := pre_transfer p uztwc1 uzfwc1 in
+  let '(e3, e5) := pre_e35 p st evapt e1 e2 uztwc2 in
+  let '(lztwc2, alzfsc2, alzfpc2) := pre_resupply p st (lztwc st - e3) in
+  let '(adimc2, uztwc3, pav) := pre_fill p pliq (adimc st - e5) uztwc2 in
+  {| pr_v0 := {| i_adimc := adimc2; i_alzfpc := alzfpc2; i_alzfsc := alzfsc2; i_flobf := 0;
+                 i_uzfwc := uzfwc2; i_floin := 0; i_lztwc := lztwc2; i_flosf := 0;
+                 i_roimp := pliq * pctim p |};
+     pr_uztwc := uztwc3; pr_pav := pav; pr_e1 := e1; pr_e2 := e2; pr_e3 := e3; pr_e5 := e5 |}.
+Proof. reflexivity. Qed.
+
+(** the store invariant of the state between time steps (the fields read by the land phase) *)
+Record st_inv (p : sac_par (T:=R)) (st : sac_st (T:=R)) : Prop := {
+  si_uztwc : 0 <= uztwc st <= uztwm p;
+  si_uzfwc : 0 <= uzfwc st <= uzfwm p;
+  si_lztwc : 0 <= lztwc st <= lztwm p;
+  si_alzfpc : 0 <= alzfpc st <= lzfpm p * (1 + side p);
+  si_alzfsc : 0 <= alzfsc st <= lzfsm p * (1 + side p);
+  si_adimc : uztwc st <= adimc st <= uztwc st + lztwm p }.
+
+(** guard of the pre phase: the numerator [adimc - e1 - uztwc] of the ADIMP ratio used by the code is
+    non-negative after the free-to-tension transfer (the missing guard of
+    [sac_adimc_ratio_negative_refuted]), and the PET does not exceed the tension capacity *)
+Definition pre_guard (p : sac_par (T:=R)) (st : sac_st (T:=R)) (evapt : R) : Prop :=
+  (let '(e1, e2, uztwc1, uzfwc1) := pre_evap p st evapt in
+   let '(uztwc2, uzfwc2) := pre_transfer p uztwc1 uzfwc1 in
+   e1 + uztwc2 <= adimc st) /\ evapt <= uztwm p + lztwm p.
+
+Lemma pre_evap_spec p st evapt e1 e2 u1 f1 : 1 <= uztwm p -> st_inv p st -> 0 <= evapt ->
+  pre_evap p st evapt = (e1, e2, u1, f1) ->
+  0 <= e1 /\ 0 <= e2 /\ e1 + e2 <= evapt /\ u1 = uztwc st - e1 /\ f1 = uzfwc st - e2 /\
+  0 <= u1 <= uztwm p /\ 0 <= f1 <= uzfwm p.
+Proof.
+  intros Hm I He. destruct I. unfold pre_evap.
+  replace (Rltb 0 (uztwm p)) with true by (symmetry; apply Rltb_true; lra).
+  set (e1a := evapt * uztwc st / uztwm p).
+  assert (Ha : 0 <= e1a <= evapt).
+  { unfold e1a. pose proof (div_unit (uztwc st) (uztwm p) si_uztwc0 ltac:(lra)) as Hq.
+    replace (evapt * uztwc st / uztwm p) with (evapt * (uztwc st / uztwm p)) by (field; lra).
+    split; [apply Rmult_le_pos; lra|].
+    assert (evapt * (uztwc st / uztwm p) <= evapt * 1) by (apply Rmult_le_compat_l; lra). lra. }
+  rcase_bool (Rltb (uztwc st) e1a); intros E; injection E as <- <- <- <-.
+  - pose proof (Rmin_l (evapt - uztwc st) (uzfwc st)). pose proof (Rmin_r (evapt - uztwc st) (uzfwc st)).
+    assert (0 <= Rmin (evapt - uztwc st) (uzfwc st)) by (apply Rmin_glb; lra).
+    repeat split; lra.
+  - repeat split; lra.
+Qed.
+
+Lemma pre_transfer_spec p u1 f1 u2 f2 : 1 <= uztwm p -> 1 <= uzfwm p ->
+  0 <= u1 <= uztwm p -> 0 <= f1 <= uzfwm p -> pre_transfer p u1 f1 = (u2, f2) ->
+  u2 + f2 = u1 + f1 /\ 0 <= u2 <= uztwm p /\ 0 <= f2 <= uzfwm p /\ u1 <= u2.
+Proof.
+  intros Hm1 Hm2 Hu Hf. unfold pre_transfer.
+  replace (Rltb 0 (uztwm p)) with true by (symmetry; apply Rltb_true; lra).
+  replace (Rltb 0 (uzfwm p)) with true by (symmetry; apply Rltb_true; lra).
+  rcase_bool (Rltb (u1 / uztwm p) (f1 / uzfwm p)); intros E; injection E as <- <-; [|repeat split; lra].
+  assert (Hx : u1 * uzfwm p < f1 * uztwm p).
+  { apply (Rmult_lt_compat_r (uztwm p * uzfwm p)) in Hc; [|nra].
+    replace (u1 / uztwm p * (uztwm p * uzfwm p)) with (u1 * uzfwm p) in Hc by (field; lra).
+    replace (f1 / uzfwm p * (uztwm p * uzfwm p)) with (f1 * uztwm p) in Hc by (field; lra). exact Hc. }
+  pose proof (div_unit (u1 + f1) (uztwm p + uzfwm p) ltac:(lra) ltac:(lra)) as Ha.
+  set (a := (u1 + f1) / (uztwm p + uzfwm p)) in *.
+  assert (Ea : a * (uztwm p + uzfwm p) = u1 + f1) by (unfold a; field; lra).
+  assert (0 <= uztwm p * a) by (apply Rmult_le_pos; lra).
+  assert (0 <= uzfwm p * a) by (apply Rmult_le_pos; lra).
+  assert (uztwm p * a <= uztwm p * 1) by (apply Rmult_le_compat_l; lra).
+  assert (uzfwm p * a <= uzfwm p * 1) by (apply Rmult_le_compat_l; lra).
+  assert (u1 <= uztwm p * a).
+  { apply Rmult_le_reg_r with (uztwm p + uzfwm p); [lra|].
+    replace (uztwm p * a * (uztwm p + uzfwm p)) with (uztwm p * (u1 + f1)) by (rewrite <- Ea; ring). nra. }
+  repeat split; lra.
+Qed.
+
+Lemma pre_e35_spec p st evapt e1 e2 u2 e3 e5 : 1 <= uztwm p -> 1 <= lztwm p ->
+  0 <= lztwc st <= lztwm p -> 0 <= u2 ->
+  0 <= evapt - e1 - e2 <= uztwm p + lztwm p -> 0 <= e1 -> e1 + u2 <= adimc st ->
+  pre_e35 p st evapt e1 e2 u2 = (e3, e5) ->
+  0 <= e3 <= lztwc st /\ e3 <= evapt - e1 - e2 /\ 0 <= e5 /\
+  0 <= adimc st - e5 - u2 <= adimc st - e1 - u2.
+Proof.
+  intros Hm1 Hm2 Hl Hu HR He1 Hd. unfold pre_e35.
+  replace (Rltb 0 (uztwm p + lztwm p)) with true by (symmetry; apply Rltb_true; lra).
+  intros E; injection E as <- <-.
+  set (W := uztwm p + lztwm p) in *. set (Rr := evapt - e1 - e2) in *.
+  pose proof (div_unit Rr W HR ltac:(unfold W; lra)) as Hq. set (q := Rr / W) in *.
+  replace (Rr * lztwc st / W) with (q * lztwc st) by (unfold q; field; unfold W; lra).
+  replace (Rr * (adimc st - e1 - u2) / W) with (q * (adimc st - e1 - u2)) by (unfold q; field; unfold W; lra).
+  assert (H1 : 0 <= q * lztwc st) by (apply Rmult_le_pos; lra).
+  assert (H2 : q * lztwc st <= 1 * lztwc st) by (apply Rmult_le_compat_r; lra).
+  assert (H3 : 0 <= q * (adimc st - e1 - u2)) by (apply Rmult_le_pos; lra).
+  assert (H4 : q * (adimc st - e1 - u2) <= 1 * (adimc st - e1 - u2)) by (apply Rmult_le_compat_r; lra).
+  assert (H5 : q * lztwc st <= Rr).
+  { assert (q * lztwc st <= q * W) by (apply Rmult_le_compat_l; unfold W; lra).
+    assert (q * W = Rr) by (unfold q; field; unfold W; lra). lra. }
+  rewrite (Rmin_left (q * lztwc st)) by lra.
+  rewrite (Rmin_left (e1 + q * (adimc st - e1 - u2))) by lra.
+  repeat split; lra.
+Qed.
+
+Lemma pre_resupply_spec p st l1 l2 S2 P2 : par_facts p -> 0 <= rserv p <= 1 -> 1 <= lzfpm p -> 1 <= lzfsm p ->
+  st_inv p st -> 0 <= l1 <= lztwm p -> pre_resupply p st l1 = (l2, S2, P2) ->
+  l2 + S2 + P2 = l1 + alzfsc st + alzfpc st /\ 0 <= l2 <= lztwm p /\
+  0 <= S2 <= sMs p /\ 0 <= P2 <= sMp p.
+Proof.
+  intros F Hr Hp1 Hs1 I Hl. destruct F. destruct I. fold (sMp p) in *. fold (sMs p) in *.
+  unfold pre_resupply. set (saved := rserv p * (lzfpm p + lzfsm p)).
+  assert (Hsv : 0 <= saved <= sMp p + sMs p).
+  { unfold saved. split; [apply Rmult_le_pos; lra|].
+    assert (rserv p * (lzfpm p + lzfsm p) <= 1 * (lzfpm p + lzfsm p)) by (apply Rmult_le_compat_r; lra).
+    unfold sMp, sMs. nra. }
+  set (D := sMp p + sMs p - saved + lztwm p).
+  assert (HD : lztwm p <= D) by (unfold D; lra).
+  replace (Rltb 0 (lztwm p)) with true by (symmetry; apply Rltb_true; lra).
+  replace (Rltb 0 D) with true by (symmetry; apply Rltb_true; lra).
+  set (N := alzfpc st + alzfsc st - saved + l1).
+  set (a2 := l1 / lztwm p). set (b2 := N / D).
+  assert (Ea : a2 * lztwm p = l1) by (unfold a2; field; lra).
+  assert (Eb : b2 * D = N) by (unfold b2; field; lra).
+  assert (Ha : 0 <= a2) by (unfold a2; apply Rdiv_pos_pos; lra).
+  rcase_bool (Rltb a2 b2); [|intros E; injection E as <- <- <-; repeat split; lra].
+  assert (Hb1 : b2 <= 1).
+  { apply Rmult_le_reg_r with D; [lra|]. rewrite Eb. unfold N, D. lra. }
+  replace ((b2 - a2) * lztwm p) with (b2 * lztwm p - l1) by (rewrite <- Ea; ring).
+  assert (H1 : 0 <= b2 * lztwm p) by (apply Rmult_le_pos; lra).
+  assert (H2 : b2 * lztwm p <= 1 * lztwm p) by (apply Rmult_le_compat_r; lra).
+  assert (H3 : l1 < b2 * lztwm p) by (rewrite <- Ea; apply Rmult_lt_compat_r; lra).
+  assert (H4 : 0 <= b2 * (D - lztwm p)) by (apply Rmult_le_pos; lra).
+  assert (H5 : alzfpc st + alzfsc st + l1 - b2 * lztwm p = b2 * (D - lztwm p) + saved).
+  { replace (b2 * (D - lztwm p)) with (b2 * D - b2 * lztwm p) by ring. rewrite Eb. unfold N. ring. }
+  rcase_bool (Rltb (alzfsc st - (b2 * lztwm p - l1)) 0); intros E; injection E as <- <- <-;
+    repeat split; lra.
+Qed.
+
+Lemma pre_fill_spec p pliq a1 u2 a2 u3 pav : 0 <= pliq -> 0 <= u2 <= uztwm p ->
+  pre_fill p pliq a1 u2 = (a2, u3, pav) ->
+  0 <= pav /\ 0 <= u3 <= uztwm p /\ a2 - u3 = a1 - u2 /\ u3 + pav = u2 + pliq /\ a2 + pav = a1 + pliq.
+Proof.
+  intros Hp Hu. unfold pre_fill.
+  rcase_bool (Rltb (pliq + u2 - uztwm p) 0); intros E; injection E as <- <- <-; repeat split; lra.
+Qed.
+
+Theorem sac_pre_inv : forall p st pliq evapt, sac_ok p = true -> st_inv p st ->
+  0 <= pliq -> 0 <= evapt -> pre_guard p st evapt ->
+  let pre := sac_pre p st (pliq, evapt) in
+  inc_inv p (pr_uztwc pre) (pr_v0 pre) /\ 0 <= pr_pav pre /\ 0 <= pr_uztwc pre <= uztwm p /\
+  0 <= pr_e1 pre /\ 0 <= pr_e2 pre /\ 0 <= pr_e3 pre /\ 0 <= pr_e5 pre /\
+  pr_e1 pre + pr_e2 pre + pr_e3 pre <= evapt /\
+  (* pervious-area budget *)
+  pr_uztwc pre + perv_sum (pr_v0 pre) + pr_pav pre + pr_e1 pre + pr_e2 pre + pr_e3 pre
+    = uztwc st + uzfwc st + lztwc st + alzfpc st + alzfsc st + pliq /\
+  (* ADIMP-area budget *)
+  i_adimc (pr_v0 pre) + pr_pav pre + pr_e5 pre = adimc st + pliq /\
+  i_roimp (pr_v0 pre) = pliq * pctim p /\
+  i_flobf (pr_v0 pre) = 0 /\ i_floin (pr_v0 pre) = 0 /\ i_flosf (pr_v0 pre) = 0.
+Proof.
+  intros p st pliq evapt Hok I Hp He [G1 G2] pre. subst pre.
+  pose proof (sac_ok_facts p Hok) as F. pose proof Hok as Hok'. sac_ok_split Hok'.
+  pose proof F as F'. destruct F'. pose proof I as I'. destruct I'.
+  rewrite sac_pre_blocks.
+  destruct (pre_evap p st evapt) as [[[e1 e2] u1] f1] eqn:E1.
+  apply pre_evap_spec in E1; try assumption.
+  destruct E1 as (A1 & A2 & A3 & -> & -> & A4 & A5).
+  destruct (pre_transfer p (uztwc st - e1) (uzfwc st - e2)) as [u2 f2] eqn:E2.
+  apply pre_transfer_spec in E2; try assumption.
+  destruct E2 as (T1 & T2 & T3 & T4).
+  destruct (pre_e35 p st evapt e1 e2 u2) as [e3 e5] eqn:E3.
+  apply pre_e35_spec in E3; try assumption; try lra.
+  destruct E3 as (V1 & V2 & V3 & V4).
+  destruct (pre_resupply p st (lztwc st - e3)) as [[l2 S2] P2] eqn:E4.
+  apply pre_resupply_spec in E4; try assumption; try lra.
+  destruct E4 as (R1 & R2 & R3 & R4).
+  destruct (pre_fill p pliq (adimc st - e5) u2) as [[a2 u3] pav] eqn:E5.
+  apply pre_fill_spec in E5; try assumption.
+  destruct E5 as (L1 & L2 & L3 & L4 & L5).
+  cbn [pr_v0 pr_uztwc pr_pav pr_e1 pr_e2 pr_e3 pr_e5 i_adimc i_roimp i_flobf i_floin i_flosf].
+  assert (0 <= pliq * pctim p) by (apply Rmult_le_pos; lra).
+  split.
+  { constructor; cbn [i_adimc i_alzfpc i_alzfsc i_flobf i_uzfwc i_floin i_lztwc i_flosf i_roimp];
+      fold (sMp p); fold (sMs p); lra. }
+  unfold perv_sum. cbn [i_adimc i_alzfpc i_alzfsc i_flobf i_uzfwc i_floin i_lztwc i_flosf i_roimp].
+  repeat split; lra.
+Qed.
+
+(** * (C3) the whole land phase and the step: invariant, budgets, and the C10 statement under guards *)
+Theorem sac_land_inv : forall p st io, sac_ok p = true -> lzfpm p <= lzfsm p -> 10 <= lztwm p ->
+  st_inv p st -> 0 <= fst io -> 0 <= snd io -> pre_guard p st (snd io) ->
+  let l := sac_land p st io in
+  inc_inv p (l_uztwc l) (l_v l) /\ 0 <= l_uztwc l <= uztwm p /\
+  0 <= l_e1 l /\ 0 <= l_e2 l /\ 0 <= l_e3 l /\ 0 <= l_e5 l /\ l_e1 l + l_e2 l + l_e3 l <= snd io /\
+  (* pervious-area budget: stores after + flows + evaporation = stores before + rain *)
+  l_uztwc l + perv_sum (l_v l) + l_e1 l + l_e2 l + l_e3 l
+    = uztwc st + uzfwc st + lztwc st + alzfpc st + alzfsc st + fst io /\
+  (* ADIMP-area budget *)
+  adimp p * (i_adimc (l_v l) + l_e5 l) + i_roimp (l_v l)
+    = adimp p * (adimc st + fst io) + fst io * pctim p.
+Proof.
+  intros p st [pliq evapt] Hok Hm Ht I Hp He G l. subst l. cbn [fst snd] in *.
+  destruct (sac_pre_inv p st pliq evapt Hok I Hp He G)
+    as (I0 & P0 & U0 & E1 & E2 & E3 & E5 & Es & B1 & B2 & B3 & _).
+  unfold sac_land. cbn [l_v l_uztwc l_e1 l_e2 l_e3 l_e5].
+  set (pre := sac_pre p st (pliq, evapt)) in *.
+  destruct (sac_loop_inv p (pr_uztwc pre) (pr_pav pre) (pr_v0 pre) Hok Hm Ht P0 I0) as (I1 & C1 & C2).
+  split; [exact I1|]. repeat split; try lra. nra.
+Qed.
+
+(** a static sufficient condition for the guard *)
+Lemma pre_guard_suff p st evapt : sac_ok p = true -> st_inv p st ->
+  0 <= evapt <= uztwm p + lztwm p -> uztwc st + uzfwc st <= adimc st -> pre_guard p st evapt.
+Proof.
+  intros Hok I He Ha. pose proof Hok as Hok'. sac_ok_split Hok'. split; [|lra].
+  destruct (pre_evap p st evapt) as [[[e1 e2] u1] f1] eqn:E1.
+  apply pre_evap_spec in E1; try assumption; try lra.
+  destruct E1 as (A1 & A2 & A3 & -> & -> & A4 & A5).
+  destruct (pre_transfer p (uztwc st - e1) (uzfwc st - e2)) as [u2 f2] eqn:E2.
+  apply pre_transfer_spec in E2; try assumption.
+  destruct E2 as (T1 & T2 & T3 & T4). lra.
+Qed.
+
+Lemma st_inv_init0 p : sac_ok p = true -> st_inv p (sac_init p 0 0 0 0 0 0).
+Proof.
+  intros Hok. sac_ok_split Hok. unfold sac_init. runfold.
+  constructor; cbn [uztwc uzfwc lztwc adimc alzfsc alzfpc]; nra.
+Qed.
+
+(** the C10 output claims for one step *)
+Definition sac_out_ok (o : sac_out (T:=R)) : Prop :=
+  o_runoff o = o_surface o + o_baseflow o /\ 0 <= o_baseflow o <= o_runoff o /\ 0 <= o_surface o /\
+  0 <= o_runoff o /\ 0 <= o_imperv o /\ 0 <= o_aet o.
+
+Theorem sac_step_inv : forall p st io, sac_ok p = true -> lzfpm p <= lzfsm p -> 10 <= lztwm p ->
+  st_inv p st -> qq_ok (qq st) -> 0 <= fst io -> 0 <= snd io -> pre_guard p st (snd io) ->
+  st_inv p (fst (sac_step p st io)) /\ qq_ok (qq (fst (sac_step p st io))) /\
+  sac_out_ok (snd (sac_step p st io)).
+Proof.
+  intros p st io Hok Hm Ht I Hq Hp He G.
+  destruct (sac_land_inv p st io Hok Hm Ht I Hp He G) as (I1 & U1 & E1 & E2 & E3 & E5 & _).
+  pose proof I1 as I1'. destruct I1'.
+  pose proof (sacramento_c10_partial p st io Hok Hq Hp He) as C. cbv zeta in C.
+  specialize (C ii_flosf0 ii_roimp0 ii_floin0 ii_flobf0 E1 E2 E3 E5).
+  destruct C as (C1 & C2 & C3 & C4 & C5 & C6 & C7).
+  split; [|split; [exact C7 | unfold sac_out_ok; tauto]].
+  unfold sac_step. cbn [fst]. constructor; cbn [uztwc uzfwc lztwc adimc alzfsc alzfpc]; assumption.
+Qed.
+
+(** run level: the guard has to hold at every step of the run *)
+Fixpoint sac_guarded (p : sac_par (T:=R)) (st : sac_st (T:=R)) (io : list (R * R)) : Prop :=
+  match io with
+  | [] => True
+  | x :: r => pre_guard p st (snd x) /\ sac_guarded p (fst (sac_step p st x)) r
+  end.
+
+Theorem sacramento_c10_guarded : forall p io st, sac_ok p = true -> lzfpm p <= lzfsm p -> 10 <= lztwm p ->
+  st_inv p st -> qq_ok (qq st) -> io_nonneg io -> sac_guarded p st io ->
+  st_inv p (fst (sac_run p st io)) /\ qq_ok (qq (fst (sac_run p st io))) /\
+  Forall sac_out_ok (snd (sac_run p st io)).
+Proof.
+  intros p io. induction io as [|x r IH]; intros st Hok Hm Ht I Hq Hio G.
+  - cbn. auto.
+  - inversion Hio as [|? ? [Hx1 Hx2] Hr]; subst. destruct G as [G1 G2].
+    destruct (sac_step_inv p st x Hok Hm Ht I Hq Hx1 Hx2 G1) as (I1 & Q1 & O1).
+    specialize (IH (fst (sac_step p st x)) Hok Hm Ht I1 Q1 Hr G2).
+    unfold sac_run in *. cbn [run]. destruct (sac_step p st x) as [s1 o]. cbn [fst snd] in *.
+    destruct (run (sac_step p) s1 r) as [s2 os]. cbn [fst snd] in *.
+    destruct IH as (J1 & J2 & J3). split; [exact J1 | split; [exact J2 | constructor; assumption]].
+Qed.
+
+(** non-vacuity: the hypotheses of [sacramento_c10_guarded] are satisfiable (defaults with
+    lzfpm = lzfsm = 25 and lztwm = 130, empty initial state, one day with 10 mm rain and 3 mm PET) *)
+Example sac_guarded_satisfiable : exists p io, sac_ok p = true /\ lzfpm p <= lzfsm p /\ 10 <= lztwm p /\
+  st_inv p (sac_init p 0 0 0 0 0 0) /\ qq_ok (qq (sac_init p 0 0 0 0 0 0)) /\ io_nonneg io /\ io <> [] /\
+  sac_guarded p (sac_init p 0 0 0 0 0 0) io.
+Proof.
+  set (p := {| lzpk := 1/100; lzsk := 5/100; uzk := 3/10; uztwm := 50; uzfwm := 40; lztwm := 130;
+               lzfsm := 25; lzfpm := 25; pfree := 6/100; rexp := 1; zperc := 40; side := 0; ssout := 0;
+               pctim := 1/100; adimp := 0; sarva := 0; rserv := 3/10; uh1 := 8/10; uh2 := 1/10;
+               uh3 := 5/100; uh4 := 3/100; uh5 := 2/100 |} : sac_par (T:=R)).
+  assert (Hok : sac_ok p = true) by (unfold p; sac_ok_solve).
+  exists p, [(10, 3)]. split; [exact Hok|].
+  split; [unfold p; cbn [lzfpm lzfsm]; lra|]. split; [unfold p; cbn [lztwm]; lra|].
+  split; [apply st_inv_init0; exact Hok|].
+  split. { unfold sac_init, qq_ok. cbn [qq]. runfold. split; [reflexivity|]. repeat constructor; lra. }
+  split; [repeat constructor; cbn; lra|]. split; [discriminate|].
+  cbn [sac_guarded snd]. split; [|exact I].
+  apply pre_guard_suff; [exact Hok | apply st_inv_init0; exact Hok | unfold p; cbn [uztwm lztwm]; lra |].
+  unfold sac_init. cbn [uztwc uzfwc adimc]. runfold. lra.
 Qed.
